@@ -11,6 +11,8 @@ type vWriter struct {
 	err      error
 	after    int // writes attempted after the failing one
 	accepted int // bytes accepted before the failure
+	once     bool // only the k-th write fails; later writes are accepted and counted
+	late     int  // bytes accepted after the failing write (once)
 }
 
 func (w *vWriter) Write(b []byte) (int, error) {
@@ -20,7 +22,10 @@ func (w *vWriter) Write(b []byte) (int, error) {
 	}
 	if w.failAt > 0 && w.writes > w.failAt {
 		w.after++
-		return 0, w.err
+		if !w.once {
+			return 0, w.err
+		}
+		w.late += len(b)
 	}
 	w.buf = append(w.buf, b...)
 	return len(b), nil
@@ -33,7 +38,10 @@ func (w *vWriter) WriteString(s string) (int, error) {
 	}
 	if w.failAt > 0 && w.writes > w.failAt {
 		w.after++
-		return 0, w.err
+		if !w.once {
+			return 0, w.err
+		}
+		w.late += len(s)
 	}
 	w.buf = append(w.buf, s...)
 	return len(s), nil
